@@ -16,9 +16,9 @@ RULE = ('states = (estimator configuration, history prefix) reached; transitions
         'attitude per sample, evaluated on every emitted row; a history is distinct by (configuration, sample word, magnitudes) and non-trivial when acc is not the +z axis')
 ASSUMPTIONS = ['unit norm within 1e-9 for quaternions, SO(3) membership within 1e-9 for matrices, finite for angle triples',
                'acc and mag at least 1 degree from parallel, all samples non-zero (as in the statement)',
-               'bounded to histories of length <= 3 over the 26 lattice directions / 6 poses; magnitudes 1e-3 ... 1e3',
+               'bounded to histories of length <= 3 over the 26 lattice directions / 6 poses; magnitudes 1e-3 ... 1e3; plus sustained turns of 700 (thorough: 1500) samples about 4 axes at 3 (rate, sampling frequency) pairs',
                'default magnetic references are never used: every estimator gets an explicit dip / reference']
-REQUIRED_CLASSES = ['float32', 'zero-rate', 'rate-ladder', 'containers', 'apriori-containers', 'single-frame', 'recursive', 'pose:level', 'pose:inverted', 'pose:vertical', 'history:jump']
+REQUIRED_CLASSES = ['float32', 'zero-rate', 'rate-ladder', 'containers', 'apriori-containers', 'single-frame', 'recursive', 'pose:level', 'pose:inverted', 'pose:vertical', 'history:jump', 'history:sustained-turn', 'frame-spellings']
 MAG_Q = [(9.81, 45.0), (1.0, 1.0)]
 MAG_T = [(sa, sm) for sa in (1e-3, 9.81, 1e3) for sm in (1e-3, 45.0, 1e3)]
 GYR = [np.array([0.01, -0.02, 0.03]), np.array([1.0, -2.0, 0.5]), np.array([0.0, 0.0, 1e-3])]
@@ -401,6 +401,99 @@ def job_gyro_ladder(ctx, key, ci):
     ctx.sample({'filter': key, 'rates': GYR_LADDER, 'containers': [c[0] for c in CONTAINERS]})
 
 
+def job_sustained_turn(ctx, which):
+    """Long histories: a sustained turn of several revolutions (angle histories beyond +-pi and +-2 pi) about an axis, turntable-consistent
+    or constant accelerometer / magnetometer samples, through every recursive filter (first configuration) and through the configurations of
+    Complementary (gain 1.0 = documented gyro-only setting, 0.98) and AngularRate (every method) that keep an unwrapped angle history."""
+    from ahrs import filters as F
+    N = 700 if not ctx.thorough else 1500
+    g0 = np.array([0.0, 0.0, 1.0]); m0 = np.array([math.cos(1.0), 0.0, math.sin(1.0)])
+    extra = [('AngularRate[integration]', False, lambda g, a, m, f: F.AngularRate(gyr=g, method='integration', frequency=f).Q),
+             ('AngularRate[closed]', False, lambda g, a, m, f: F.AngularRate(gyr=g, method='closed', frequency=f).Q),
+             ('AngularRate[series,2]', False, lambda g, a, m, f: F.AngularRate(gyr=g, method='series', order=2, frequency=f).Q),
+             ('Complementary[gain=1] IMU', False, lambda g, a, m, f: F.Complementary(gyr=g, acc=a, gain=1.0, frequency=f).Q),
+             ('Complementary[gain=1] MARG', True, lambda g, a, m, f: F.Complementary(gyr=g, acc=a, mag=m, gain=1.0, frequency=f).Q),
+             ('Complementary[gain=0.98] MARG', True, lambda g, a, m, f: F.Complementary(gyr=g, acc=a, mag=m, gain=0.98, frequency=f).Q),
+             ('Complementary[gain=0.98] IMU', False, lambda g, a, m, f: F.Complementary(gyr=g, acc=a, gain=0.98, frequency=f).Q)]
+    for r in rr.registry():
+        extra.append((f'{r.key} cfg#0', r.has_mag, lambda g, a, m, f, r=r: r.output(r.batch(g, a, m, dict(r.cfgs[0], frequency=f)))))
+    for axn, ax in (('z', np.array([0.0, 0.0, 1.0])), ('x', np.array([1.0, 0.0, 0.0])), ('y', np.array([0.0, 1.0, 0.0])), ('generic', np.array([0.3, -0.5, 0.4]) / math.sqrt(0.5))):
+        if axn != which:
+            continue
+        for rate, freq in ((2.0, 100.0), (-3.0, 100.0), (2.0, 10.0)):
+            n = N if freq == 100.0 else max(60, N // 8)
+            ang = rate / freq * np.arange(n)
+            gyr = np.tile(ax * rate, (n, 1))
+            for data in ('turntable', 'constant'):
+                if data == 'turntable':
+                    Rs = [rq.R(rq.axang2q(ax, t_)) for t_ in ang]
+                    acc = np.array([R_.T @ g0 for R_ in Rs]) * 9.81; mag = np.array([R_.T @ m0 for R_ in Rs]) * 45.0
+                else:
+                    acc = np.tile(g0 * 9.81, (n, 1)); mag = np.tile(m0 * 45.0, (n, 1))
+                for nm, has_mag, fn in extra:
+                    key = f'{nm} axis={axn} rate={rate:g} rad/s f={freq:g} Hz N={n} ({abs(rate) * n / freq / (2 * math.pi):.1f} turns) data={data}'
+                    ctx.evals += 1
+                    ctx.transitions += n
+                    try:
+                        np.random.seed(1)
+                        out = np.asarray(fn(gyr.copy(), acc.copy(), mag.copy() if has_mag else None, freq))
+                        ok, why = _valid_rows(out, 'q', n)
+                        if not ok:
+                            ctx.fail(f'{nm}: one valid attitude per sample over a sustained turn of several revolutions', key, why, 'finite real unit rows')
+                    except Exception as ex:
+                        ctx.fail(f'{nm}: raises on a sustained turn of several revolutions', key, f'{type(ex).__name__}: {ex}'[:140], 'valid attitudes')
+                    ctx.seen(('turn', nm, axn, rate, freq, data))
+    ctx.cls('history:sustained-turn')
+    ctx.states += 1
+
+
+def job_frame_spellings(ctx):
+    """Both local frames, however the frame name is spelled: the classes validate `frame` case-insensitively, so 'ned' / 'Enu' are settings
+    they accept.  A spelling that a class accepts in one cell of (sensors, a-priori given | omitted, batch | one sample) is accepted in every
+    cell and gives valid attitudes there (a spelling refused by EVERY cell of the class is a refusal and not judged)."""
+    from ahrs import filters as F
+    P6 = poses6()
+    acc = np.array([P6[4][0], P6[5][0], P6[4][0]]) * 9.81; mag = np.array([P6[4][1], P6[5][1], P6[4][1]]) * 45.0
+    gyr = np.tile(GYR[0], (3, 1))
+    q0 = rq.qunit([0.8, 0.1, -0.3, 0.2])
+    classes = {
+        'EKF': [('IMU, q0 omitted', lambda fr: F.EKF(gyr=gyr.copy(), acc=acc.copy(), frame=fr).Q), ('IMU, q0 given', lambda fr: F.EKF(gyr=gyr.copy(), acc=acc.copy(), frame=fr, q0=q0.copy()).Q),
+                ('MARG, q0 omitted', lambda fr: F.EKF(gyr=gyr.copy(), acc=acc.copy(), mag=mag.copy(), frame=fr, magnetic_ref=60.0).Q),
+                ('MARG, q0 given', lambda fr: F.EKF(gyr=gyr.copy(), acc=acc.copy(), mag=mag.copy(), frame=fr, magnetic_ref=60.0, q0=q0.copy()).Q),
+                ('MARG, streaming', lambda fr: np.array([F.EKF(frame=fr, magnetic_ref=60.0).update(q0.copy(), gyr[0], acc[0], mag[0]) for _ in range(3)]))],
+        'ROLEQ': [('q0 omitted', lambda fr: F.ROLEQ(gyr=gyr.copy(), acc=acc.copy(), mag=mag.copy(), frame=fr, magnetic_ref=60.0).Q),
+                  ('q0 given', lambda fr: F.ROLEQ(gyr=gyr.copy(), acc=acc.copy(), mag=mag.copy(), frame=fr, magnetic_ref=60.0, q0=q0.copy()).Q)],
+        'OLEQ': [('N samples', lambda fr: F.OLEQ(acc=acc.copy(), mag=mag.copy(), frame=fr, magnetic_ref=60.0).Q),
+                 ('one sample', lambda fr: np.tile(F.OLEQ(acc=acc[0].copy(), mag=mag[0].copy(), frame=fr, magnetic_ref=60.0).Q, (3, 1)))],
+        'TRIAD': [('N samples', lambda fr: F.TRIAD(acc.copy(), mag.copy(), frame=fr, representation='quaternion').A),
+                  ('one sample', lambda fr: np.tile(F.TRIAD(acc[0].copy(), mag[0].copy(), frame=fr, representation='quaternion').A, (3, 1)))],
+        'AQUA': [('MARG', lambda fr: F.AQUA(gyr=gyr.copy(), acc=acc.copy(), mag=mag.copy(), frame=fr).Q), ('IMU', lambda fr: F.AQUA(gyr=gyr.copy(), acc=acc.copy(), frame=fr).Q),
+                 ('acc + mag', lambda fr: F.AQUA(acc=acc.copy(), mag=mag.copy(), frame=fr).Q)]}
+    for cname, cells in classes.items():
+        for sp in ('NED', 'ENU', 'ned', 'enu', 'Ned', 'Enu', 'nED'):
+            res = {}
+            for cell, fn in cells:
+                ctx.evals += 1
+                ctx.transitions += 3
+                try:
+                    np.random.seed(1)
+                    out = np.asarray(fn(sp))
+                    res[cell] = ('ok',) + _valid_rows(out, 'q', 3)
+                except ValueError as ex:
+                    res[cell] = ('refused', str(ex)[:100])
+                except Exception as ex:
+                    res[cell] = ('raises', f'{type(ex).__name__}: {ex}'[:120])
+            if all(v[0] == 'refused' for v in res.values()):
+                ctx.outcome(('frame-spelling-refused', cname, sp)); continue
+            for cell, v in res.items():
+                good = v[0] == 'ok' and v[1]
+                ctx.expect(good, f'{cname}: a frame spelling the class accepts gives valid attitudes in every cell (sensors, a-priori, batch / one sample)',
+                           f'frame={sp!r} cell={cell}', list(v), {c: r_[0] for c, r_ in res.items()})
+            ctx.seen(('frame-spelling', cname, sp))
+    ctx.cls('frame-spellings')
+    ctx.states += 1
+
+
 def run(ctx):
     # helper functions of ahrs.common.orientation (ecompass, am2DCM, am2q, acc2q) are not filters the package exports: C04 covers them
     helpers = ('ecompass', 'am2DCM', 'am2q', 'acc2q')
@@ -409,5 +502,6 @@ def run(ctx):
         for ci in range(len(r.cfgs)):
             jobs.append(('job_recursive', (r.key, ci)))
             jobs.append(('job_gyro_ladder', (r.key, ci)))
+    jobs += [('job_sustained_turn', (w,)) for w in ('z', 'x', 'y', 'generic')] + [('job_frame_spellings', ())]
     core.run_jobs(ctx, __name__, jobs)
     ctx.notes['configurations'] = len(jobs)
